@@ -163,6 +163,14 @@ func RealReference() {}
 
 func Yield() { runtime.Gosched() }
 
+var stubMu sync.Mutex
+
+// Lock/Unlock protect the bookkeeping of the stub environment in NATIVE runs (the engine
+// calls the storage from several goroutines). Under gosym they are no-ops: goroutines are
+// coroutines there, and a modelled mutex would add scheduling points to every storage call.
+func Lock()   { stubMu.Lock() }
+func Unlock() { stubMu.Unlock() }
+
 // LetOthersRun: under gosym the calling goroutine is parked until every other goroutine has
 // blocked or finished; natively it sleeps a little.
 func LetOthersRun() {
